@@ -395,10 +395,20 @@ type aliasMap struct {
 }
 
 func (am aliasMap) varAliases(k string) (vals []string) {
+	return am.walkAliases(k, map[string]struct{}{})
+}
+
+// Template variables can be re-assigned in a cycle ($a := $b, $b := $a),
+// seen keeps track of aliases that were already visited.
+func (am aliasMap) walkAliases(k string, seen map[string]struct{}) (vals []string) {
+	if _, ok := seen[k]; ok {
+		return nil
+	}
+	seen[k] = struct{}{}
 	vals = append(vals, k)
 	if as, ok := am.aliases[k]; ok {
 		for val := range as {
-			vals = append(vals, am.varAliases(val)...)
+			vals = append(vals, am.walkAliases(val, seen)...)
 		}
 	}
 	return vals
